@@ -38,7 +38,10 @@ LEVEL_TEXT = ('Every fault kind is injected at every (variable, pass) position u
 LEVEL_NOTE = 'Trusted: refsolver.py, scripted.py. Not covered: faults beyond max_iter bound, more than one fault per run (except heal).'
 
 FAULTS = [['set', 'nan'], ['set', 'inf'], ['set', '-inf'], 'warn', ['raise', 'ZeroDivisionError'], ['raise', 'KeyError'],
-          ['raise', 'SolutionError'], ['raise', 'NonConvergenceError']]
+          ['raise', 'SolutionError'], ['raise', 'NonConvergenceError'],
+          # a warning of another category than NumPy's RuntimeWarning, from a guarded operation in the model's own code
+          # (the result it goes on to store is non-finite / an ordinary finite value)
+          ['warn', 'UserWarning', 'inf'], ['warn', 'DeprecationWarning', 2.0]]
 ERRORS = ['raise', 'skip', 'ignore', 'replace', 'bogus']
 
 
